@@ -16,7 +16,7 @@ Vocabulary (all defined in the model / proof files):
  * `Visible h cfg src p rel node` — `rel` leads from the directory `p` through real directories that
    are neither secret mounts nor mount points to the entry `node`.
 -/
-import ArvVerif.Proofs.C17_Run
+import ArvVerif.Proofs.C17_Frags
 set_option linter.unusedSimpArgs false
 namespace ArvVerif.C17
 
@@ -296,6 +296,28 @@ theorem C17_output_equals_tree_partial (h : Host) (cfg : Cfg) (hwf : HostWF h) (
         obtain ⟨_, s, hshow, hnode⟩ := hj.dirs x hmem
         exact ⟨s, hshow, hnode⟩
       · right; exact hx
+
+/-- **mounted collections** (partial, same hypotheses): the manifest text a successful scan hands to
+the collection filesystem consists exactly (as a set of items) of the extracts the specification
+names — for the output root and for the target of every link that `Shows` reaches (`Jumps`): the
+read-only collection containing it, relocated to the link's output path (`fragOf`), and, unless a
+secret mount hides it, every collection mounted beneath it at the corresponding path (`belowFrags`).
+These items reach the saved collection through `loadFrags` (the `t0` of
+`C17_output_equals_tree_partial`); no byte of them is read or written. -/
+theorem C17_mount_content_partial (h : Host) (cfg : Cfg) (hwf : HostWF h) (wf : CfgWF h cfg)
+    (hout : h.get cfg.hostOut = some .dir) (hs : supported cfg = true) (hx : InOut cfg cfg.ctrOut)
+    (hdirect : Direct h cfg) (fuel : Nat) (plan : Plan) (hscan : scan h cfg fuel = .ok plan) :
+    (∀ f ∈ plan.frags, ∃ d x, Jumps h cfg d x ∧
+      (f ∈ fragOf cfg d x ∨ (notSecret cfg x ∧ f ∈ belowFrags cfg d x))) ∧
+    (∀ d x, Jumps h cfg d x →
+      (∀ f ∈ fragOf cfg d x, f ∈ plan.frags) ∧
+      (notSecret cfg x → ∀ f ∈ belowFrags cfg d x, f ∈ plan.frags)) :=
+  ⟨scan_frags_sound h cfg hwf wf hout hs hdirect fuel plan hscan,
+   fun d x hj => scan_frags_complete h cfg hwf wf hout hs hdirect hx fuel plan hscan d x hj⟩
+
+/-- bytes written to Keep by `Copy` are the bytes of the planned host files only -/
+theorem C17_put_bytes (h : Host) (p : Plan) :
+    putBytes h p = (p.files.map fun f => (srcContent h f.2).length).sum := rfl
 
 /-- the full statement: the same for every host tree, without `Direct` -/
 def C17_output_equals_tree_Full : Prop :=
